@@ -653,8 +653,24 @@ def sx_str(o=""):
         ent = PROV.get(o.z.get_id())
         if ent is not None and ent[0].eq(o.z):
             return LazyIntStr(ent[1])
-        raise Unsupported("str(symbolic int) without digit provenance")
+        return _dec_str(o)
     return _builtin_str(o)
+
+
+def _dec_str(x):
+    """decimal rendering of a symbolic int without digit provenance: fork on sign and on the number of digits
+    (at most 8 digits), then the digits are (x div 10^k) mod 10"""
+    neg = branch(x.z < 0)
+    a = -x.z if neg else x.z
+    n = None
+    for k in range(1, 9):
+        if branch(a < 10 ** k):
+            n = k
+            break
+    if n is None:
+        raise Unsupported("str() of a symbolic int with more than 8 digits")
+    t = TStr.field(SInt(z3.simplify(a)), n)
+    return coerce(wrap(coerce("-") + t)) if neg else t
 
 
 def sx_bool(x=False):
